@@ -97,6 +97,7 @@ struct CGProgram {
 
 class FGen : public Gen {
 public:
+  std::vector<var_t> last_lhs; // lhs of the most recently emitted call
   CGProgram &cg;
   unsigned self;
   Func &f;
@@ -179,6 +180,13 @@ public:
         continue;
       }
       unsigned mode = t.pick(4);
+      if (mode == 2 && !isb) {
+        // a known constant as actual (informative, distinct calling contexts)
+        var_t tmp = local_int();
+        b.assign(tmp, lin_t(z_number(t.small_int(5))));
+        args.push_back(tmp);
+        continue;
+      }
       if (mode == 3) {
         // prefer a caller variable named like some formal of the callee
         std::vector<var_t> coll;
@@ -202,6 +210,7 @@ public:
       pool.erase(pool.begin() + k);
     }
     b.callsite(cf.name, lhs, args);
+    last_lhs = lhs;
     pending.erase(std::remove(pending.begin(), pending.end(), c), pending.end());
     f.n_sites++;
     CallSiteInfo si;
@@ -315,7 +324,7 @@ public:
     bool has_in = !f.strict_copyin && !f.inputs.empty();
     if (k < 6) { Gen::stmt(b); return; }
     if (k < 9) { if (has_in) input_stmt(b); else Gen::stmt(b); return; }
-    if (k < 12) { cond_stmt(b); return; }
+    if (k < 13) { cond_stmt(b); return; }
     if (!call_stmt(b)) {
       Gen::stmt(b);
       return;
@@ -363,14 +372,16 @@ public:
   }
 
   Reg fregion(unsigned depth) {
-    unsigned kind = (blocks_left < 3 || depth > 3) ? 0 : t.pick(7);
-    if (kind == 6) {
+    unsigned kind = (blocks_left < 3 || depth > 3) ? 0 : t.pick(8);
+    if (kind >= 6) {
       // guarded call: if (x > k) { d := x - 1; outs := call g(d, ...); } else { } ; join
       std::vector<unsigned> cands = callee_candidates();
       if (cands.empty() || f.all_ints.empty())
         kind = 2;
       else {
         unsigned c = cands[t.pick((unsigned)cands.size())];
+        if (self > 0 && cg.allow_self && t.flag())
+          c = self; // recursion with a decreasing argument and a base case
         if (!can_call(*cg.funcs[c]))
           kind = 2;
         else {
@@ -381,12 +392,31 @@ public:
           block_t &ge = fnew_block(false);
           label_t gtl = gt.label(), gel = ge.label();
           var_t x = f.all_ints[t.pick((unsigned)f.all_ints.size())];
+          if (!f.strict_copyin && t.pick(4) != 3)
+            for (auto &in : f.inputs)
+              if (in.get_type().is_integer()) {
+                x = in; // the classic shape: f(n) { if (n > k) { ... f(n-1) ... } }
+                break;
+              }
           z_number k((int64_t)t.pick(3));
           gt.assume(cst_t(lin_t(x) >= lin_t(k + z_number(1))));
           ge.assume(cst_t(lin_t(x) <= lin_t(k)));
           var_t d = local_int();
           gt.sub(d, x, z_number(1));
+          size_t site = cg.sites.size();
           emit_call(gt, c, &d);
+          if (cg.sites.size() > site && !f.outputs.empty() && t.flag()) {
+            // accumulate: own output := returned value + constant
+            for (auto &l : last_lhs)
+              if (l.get_type().is_integer()) {
+                for (auto &out : f.outputs)
+                  if (out.get_type().is_integer()) {
+                    gt.add(out, l, z_number(1 + (int64_t)t.pick(3)));
+                    break;
+                  }
+                break;
+              }
+          }
           unsigned n = t.pick(3);
           for (unsigned i = 0; i < n; i++)
             fstmt(gt);
